@@ -162,6 +162,67 @@ class FlowSampleRepresentation:
 
 
 @register
+class FlowSampleBatch:
+    """A batch of two flow fields on *different* grids, each a constant world displacement d_k written in the batch's
+    representation, resampled onto per-item target grids (each a refinement of the item's own grid): every item of the
+    result still means d_k in world units - the vectors of item k are re-expressed with item k's source and target grid."""
+
+    target = "deepali.data.flow:FlowFields.sample"
+    properties = ("C10", "C04")
+    tol = 2e-4
+
+    def cases(self, tier):
+        for a in AX:
+            for targets in ("per-item", "shared"):
+                yield {"axes": a, "targets": targets}
+
+    def run(self, case, K):
+        from deepali.core.grid import Axes
+        from deepali.data import FlowFields
+
+        D = 2
+        a = case["axes"]
+        g0, s0 = make_grid(K, "g", D, sizes=SIZE)
+        g1, s1 = make_grid(K, "h", D, sizes=SIZE)
+        d = K.reals("d", (2, D), lo=Fraction(-1, 4), hi=Fraction(1, 4))
+        vals = np.empty((2, D) + SHAPE, dtype=object)
+        for k, gs in enumerate((s0, s1)):
+            A = vec_map(gs, "world", a)
+            v = SG.matvec(A, list(d[k]))
+            for idx in np.ndindex(*SHAPE):
+                for i in range(D):
+                    vals[(k, i) + idx] = v[i]
+        f = FlowFields(K.tensor(K.simplify(vals)), [g0, g1], Axes(a))
+        if case["targets"] == "per-item":
+            t0, t1 = g0.resize((7, 5)), g1.resize((7, 5))
+            ts0 = SG.GridSpec([E.const(7), E.const(5)], [E.div(E.mul(s0.s[0], 3), 6), E.div(E.mul(s0.s[1], 2), 4)], s0.c, s0.R, True)
+            ts1 = SG.GridSpec([E.const(7), E.const(5)], [E.div(E.mul(s1.s[0], 3), 6), E.div(E.mul(s1.s[1], 2), 4)], s1.c, s1.R, True)
+            r = K.call(f.sample, [t0, t1])
+            specs = (ts0, ts1)
+            oshape = (5, 7)
+        else:
+            # one target grid for both items: the grid of item 0 itself refined; item 1 is padded outside its domain, so
+            # only its vector units are constrained at samples inside - here: the shape / grids / item 0
+            t0 = g0.resize((7, 5))
+            ts0 = SG.GridSpec([E.const(7), E.const(5)], [E.div(E.mul(s0.s[0], 3), 6), E.div(E.mul(s0.s[1], 2), 4)], s0.c, s0.R, True)
+            r = K.call(f.sample, t0)
+            specs = (ts0,)
+            oshape = (5, 7)
+        if not K.ensure_returns(r):
+            return
+        K.ensure("type-and-grids", E.bconst(isinstance(r, FlowFields) and len(r.grids()) == 2 and tuple(r.shape) == (2, D) + oshape and r.axes() == Axes(a)),
+                 text=Q10O + " [the result is a batch of two fields, one grid each, in the same representation]")
+        got = K.val(r.tensor())
+        for k, ts in enumerate(specs):
+            back = convert(got[k:k + 1], vec_map(ts, a, "world"))
+            want = np.empty((1, D) + oshape, dtype=object)
+            for idx in np.ndindex(*oshape):
+                for i in range(D):
+                    want[(0, i) + idx] = d[k][i]
+            K.ensure_close(f"world-displacement[{k}]", back, want, text=Q10O + f" [item {k}: resampling on another grid re-expresses the vectors with that item's own grids]")
+
+
+@register
 class FlowWarpRepresentation:
     target = "deepali.data.flow:FlowFields.warp_image"
     properties = ("C10",)
